@@ -420,6 +420,10 @@ pub fn composite_types(prims: &[DataType], tier: Tier) -> Vec<DataType> {
         out.push(DataType::list(p.clone(), 0, 2));
         out.push(DataType::list(p.clone(), 1, 1));
         out.push(DataType::set(p.clone(), 0, 2));
+        // size sets with a positive minimum (seed C11-5: inclusion decided on the maximum size alone)
+        out.push(DataType::set(p.clone(), 1, 3));
+        out.push(DataType::set(p.clone(), 2, 3));
+        out.push(DataType::list(p.clone(), 2, 3));
         out.push(DataType::array(p.clone(), [2]));
     }
     let few: Vec<DataType> = inner.iter().take(tier.pick(5, 8)).cloned().collect();
@@ -498,6 +502,9 @@ pub fn value_universe() -> Vec<Value> {
         }
     }
     comp.push(Value::list(vec![]));
+    comp.push(Value::set(vec![base[1].clone(), base[2].clone()]));
+    comp.push(Value::list(vec![base[1].clone(), base[2].clone(), base[2].clone()]));
+    comp.push(Value::set(vec![base[0].clone(), prim[2].clone()]));
     comp.push(Value::some(Value::some(Value::integer(1))));
     comp.push(Value::structured(Vec::<(&str, Value)>::new()));
     prim.extend(comp);
